@@ -24,5 +24,5 @@ def run(tier):
         return []
 
     return gadgets.standard("C11", tier, mc=["truncate", "decomposition"], weak=["weak_norange"],
-                            scen=["truncate", "decomposition", "decomposition-alias"],
+                            scen=["truncate", "decomposition", "decomposition-alias", "truncate-alias"],
                             site_of=site_of, extra_scen=extra, notes=ck_notes)
